@@ -111,7 +111,11 @@ def gen_script(rng, nops):
                                      "close %d" % rng.randint(0, MAXID)]))
         elif r < 0.30 and nxt <= MAXID:
             q = rng.random()
-            if q < 0.22:
+            if q > 0.88:
+                # a peer whose connection attempt fails inside rfbNewClient (wrong first bytes / hang-up)
+                lines.append("badconn %d %d" % (nxt, rng.randint(0, 1)))
+                nxt += 1
+            elif q < 0.22:
                 # the application calls rfbReverseConnection: it fails (refused / hook refuses) or succeeds
                 mode = rng.choice([0, 2, 1, 1])
                 lines.append("rconn %d %d" % (nxt, mode))
@@ -149,6 +153,26 @@ def gen_script(rng, nops):
     return "\n".join(lines) + "\n", cfg
 
 
+def core_scripts():
+    """deterministic histories run first at every seed: established clients, then connection attempts
+    that fail inside rfbNewClient (wrong first bytes, hang-up) and failed reverse connections, then a
+    newcomer with either shared flag — for all eight flag combinations"""
+    out = []
+    for a in (0, 1):
+        for nv in (0, 1):
+            for d in (0, 1):
+                for sh in (0, 1):
+                    L = ["cfg %d %d %d" % (a, nv, d),
+                         "conn 0 0", "hs 0", "init 0 1", "state",
+                         "conn 1 0", "hs 1", "init 1 1", "state",
+                         "rconn 2 1", "hs 2", "init 2 1", "state",
+                         "badconn 3 0", "state", "badconn 4 1", "state", "rconn 5 0", "rconn 5 2", "state",
+                         "conn 6 0", "hs 6", "init 6 %d" % sh, "state",
+                         "reap", "state"]
+                    out.append(("\n".join(L) + "\n", (a, nv, d)))
+    return out
+
+
 def parse_state(line):
     """-> ({id: (open|closed, hs|normal)} or {id: ('gone',)}, {id: 'r'|'i'})"""
     d, fl = {}, {}
@@ -176,6 +200,9 @@ def oracle(script, impl):
             want = " ".join(["ok" if okk else "fail"] + left)
             if ob != want:
                 return "rfbProcessArguments %r: returned/left %r, expected %r" % (t[1:], ob, want)
+        elif t[0] == "badconn":
+            if ob != "refused":
+                return "connection attempt %r was not refused: %r" % (op, ob)
         elif t[0] == "rconn":
             if ob == "ok":
                 rev[int(t[1])] = 1
@@ -233,6 +260,7 @@ def run(ctx):
         scripts = [("\n".join(rec.get("script", [])) + "\n", None)]
     else:
         n = 400 if ctx.tier == "quick" else 3000
+        scripts += core_scripts()
         for k in range(n):
             scripts.append(gen_script(ctx.rng, ctx.rng.choice([6, 12, 25, 40])))
     evals = 0
